@@ -250,6 +250,8 @@ where
     #[inline]
     fn next(&mut self) -> Option<Result<Token, Token::Error>> {
         self.token_start = self.token_end;
+        #[cfg(feature = "verif_hooks")]
+        crate::verif::push(crate::verif::Event::Next(self.token_start));
 
         Token::lex(self)
     }
@@ -324,6 +326,12 @@ where
     where
         Chunk: source::Chunk<'source>,
     {
+        #[cfg(feature = "verif_hooks")]
+        crate::verif::push(crate::verif::Event::Read {
+            offset,
+            size: Chunk::SIZE,
+            len: self.source.len(),
+        });
         self.source.read(offset)
     }
 
@@ -331,6 +339,8 @@ where
     #[inline]
     fn trivia(&mut self) {
         self.token_start = self.token_end;
+        #[cfg(feature = "verif_hooks")]
+        crate::verif::push(crate::verif::Event::Restart(self.token_start));
     }
 
     /// Set the current token to appropriate `#[error]` variant.
